@@ -16,7 +16,7 @@ def run(tier, seed):
     else:
         variants = [dict(N=4, maxw=3, configs="ConfigsNoFail"), dict(N=3, maxw=3, configs="ConfigsFull"),
                     dict(N=5, maxw=4, configs="ConfigsRef")]
-        n_plain, n_small, n_enum, opfrac = 40000, 6, 60, 0.3
+        n_plain, n_small, n_enum, opfrac = 40000, 6, 30, 0.3
     runs = EC.run_engine_mc(res, variants)
     EC.mc_verdict(res, PROP, runs, ["DepsOk", "RefinesRunAbs"])
     tl = [C.gen_tasks("plain", n_plain, seed, opcode_frac=opfrac, nmax=8 if tier == "quick" else 12)]
